@@ -997,3 +997,26 @@ def fn_call(ex, args):
     if not isinstance(a, tuple):
         a = (a,)
     return ex.call_value(f, list(a))
+
+
+@intrinsic('Extend::extend')
+def extend_model(ex, args):
+    """Vec / VecDeque ::extend with an Option (zero or one element) or a sequence"""
+    r, it = args
+    it = ex.deref(it)
+    if isinstance(it, Choice):
+        it = ex.concretize(it)
+    s = ex.read_ref(r)
+    if isinstance(it, Enum):
+        d = concrete_int(it.disc)
+        if d is None:
+            d = ex.choose([bv(it.disc, 64) == 0, bv(it.disc, 64) == 1])
+        if d == 0:
+            return UNIT
+        v = it.payload(1)[0]
+        ex.write_ref(r, seq_append(ex, s, Seq((v,), 1, s.ety)))
+        return UNIT
+    if isinstance(it, Seq):
+        ex.write_ref(r, seq_append(ex, s, it))
+        return UNIT
+    raise Unsupported('extend with %r' % type(it))
